@@ -255,11 +255,14 @@ PROPS["C18"] = dict(
     explanation="real Allocator.run/watch/unwatch/addNodeToPartitions/removeNodeFromPartitions and cluster.Conn.AddNode/RemoveNode/NodeChangesNotifications driven by a catalogue goroutine and a membership goroutine; afterwards one more catalogue change must go through",
     runs={
         "quick": [dict(pkg="./storage", entry="VerifC18", bounds="preempt=1,race=1", reach=["drivers-returned", "end"]),
-                  dict(pkg="./storage", entry="VerifC18", bounds="preempt=1,replicaless=1,race=1", reach=["drivers-returned", "end"])],
+                  dict(pkg="./storage", entry="VerifC18", bounds="preempt=1,replicaless=1,race=1", reach=["drivers-returned", "end"]),
+                  # restart with existing datasets and joins during creates/deletes on real Servers over the REAL etcd/raft
+                  dict(pkg=".", entry="VerifC14Raft", bounds="members=2", unwind=4000, no_native=True, reach=["settled", "restarted", "end"])],
         "thorough": [dict(pkg="./storage", entry="VerifC18", bounds="preempt=3,race=1", reach=["drivers-returned", "end"]),
-                     dict(pkg="./storage", entry="VerifC18", bounds="preempt=2,replicaless=1,race=1", reach=["drivers-returned", "end"])],
+                     dict(pkg="./storage", entry="VerifC18", bounds="preempt=2,replicaless=1,race=1", reach=["drivers-returned", "end"]),
+                     dict(pkg=".", entry="VerifC14Raft", bounds="members=3,maxp=2", unwind=4000, no_native=True, max_seconds=5400, reach=["settled", "restarted", "end"])],
     },
-    outside="partitions assigned to the local node (loadRaft/unloadRaft/proposeAddNode/proposeRemoveNode are not exercised: the watched partitions live elsewhere), i.e. the interaction of the allocator with the catalogue's own raft proposals; more than 2 membership and 3 catalogue events; more than 10 queued notifications",
+    outside="in the scripted-driver harness the watched partitions live elsewhere (loadRaft/unloadRaft/proposeAddNode are not exercised there) and its raft commits at once; the real-raft harness (VerifC14Raft) covers restart with existing datasets, a join during creates/deletes, local partitions and the allocator's proposals, within: 2 members (3 thorough), <=2 datasets with 1 partition, one restart, one message fault (thorough), one deterministic goroutine schedule per history",
     assumptions=COMMON_ASSUME + ["data races: vector-clock happens-before detection (verifrt.RaceDetect) on every explored schedule; the harness' own recording objects are guarded by verifrt.HarnessLock","sync.RWMutex is modelled with Go's writer preference (a pending Lock blocks new RLocks)"],
     replay_attempts=200,
     gomaxprocs1=True,
@@ -326,6 +329,10 @@ PROPS["C14"] = dict(
             dict(pkg=".", entry="VerifC14Restart", bounds="preempt=0", no_native=True, reach=["restarted", "end"]),
             dict(pkg=".", entry="VerifC14Restart", bounds="preempt=1,det=0,maxcreates=1,nodelete=1,nosnap=1", no_native=True, reach=["restarted", "end"]),
             dict(pkg=".", entry="VerifC14Cluster", bounds="members=2", no_native=True, reach=["settled", "restarted", "partition-with-two-replicas", "end"]),
+            # replica lists of three nodes, any of which may leave (snapshot restore onto a replica with a stale list)
+            dict(pkg="./storage", entry="VerifC14", bounds="ops=3,datasets=1,replicas=3", reach=["end"]),
+            # real Servers over the REAL etcd/raft (zero group and partition groups), virtual clock
+            dict(pkg=".", entry="VerifC14Raft", bounds="members=2", unwind=4000, no_native=True, reach=["settled", "restarted", "end"]),
         ],
         "thorough": [
             dict(pkg="./storage", entry="VerifC14", bounds="ops=4,datasets=2", reach=["end"]),
@@ -333,6 +340,9 @@ PROPS["C14"] = dict(
             dict(pkg=".", entry="VerifC14Restart", bounds="preempt=0", no_native=True, reach=["restarted", "end"]),
             dict(pkg=".", entry="VerifC14Restart", bounds="preempt=1,det=0,maxcreates=1", max_seconds=3000, no_native=True, reach=["restarted", "end"]),
             dict(pkg=".", entry="VerifC14Cluster", bounds="members=3", no_native=True, max_seconds=3000, reach=["settled", "restarted", "partition-with-two-replicas", "end"]),
+            dict(pkg="./storage", entry="VerifC14", bounds="ops=4,datasets=1,replicas=3", reach=["end"]),
+            dict(pkg=".", entry="VerifC14Raft", bounds="members=2,faults=1", unwind=4000, no_native=True, max_seconds=5400, reach=["settled", "restarted", "end"]),
+            dict(pkg=".", entry="VerifC14Raft", bounds="members=3,maxp=2", unwind=4000, no_native=True, max_seconds=5400, reach=["settled", "restarted", "end"]),
         ],
     },
     outside="what etcd/raft does between propose and commit (the cluster harness hands every member the same committed log); re-creation of a deleted dataset under the same id (ids are server generated); partitions assigned to the local node in the state-machine harness (their raft loading is exercised by the restart harness and by C12)",
